@@ -37,6 +37,7 @@ func TestMain(m *testing.M) {
 	// registration (handshake) is not what this property is about: keep its timeout out of
 	// the way on a loaded machine.
 	adaptation.SetPluginRegistrationTimeout(reqTimeout)
+	installHooks()
 	code := m.Run()
 	fixMu.Lock()
 	if fix != nil && !fix.dead {
